@@ -5,9 +5,6 @@ import runs
 from common import wlist
 
 
-GEN_STYLE = {"NSGAII": 0, "EpsNSGAII": 0, "SPEA2": 0, "NSGAIII": 0, "IBEA": 0, "GeneticAlgorithm": 1, "EvolutionaryStrategy": 2, "EpsMOEA": 3}
-
-
 def run(ctx, drv):
     rng = ctx.rng
     ctx.nontrivial_rule = ("real runs of all 16 algorithm configurations x applicable variable types, sizes 4-12, budgets "
@@ -64,29 +61,7 @@ def run(ctx, drv):
                         break
             ctx.count("seeded_runs_checked_for_re_evaluation")
         segs = runs.segments(tr)
-        # ---------------- model of the generational step (Model/GenStep.lean, Props/C08Gen.lean): the counter, the number of
-        # variator calls and the population size after every step of the whole history, from the offspring counts the variator
-        # returned -- the premise `Progress` of the budget theorems is a theorem about this model
-        style = GEN_STYLE.get(type(alg).__name__)
-        allsteps = [st for sg in segs for st in sg["steps"]]
-        if style is not None and allsteps and all(sg["nfe_after"] is not None for sg in segs):
-            counts = [c for st in allsteps for c in st["evolves"]]
-            if any(len(st["batches"]) != 1 for st in allsteps):
-                ctx.count("genstep_runs_skipped_restart_or_extra_batches")        # eps-NSGA-II restarts evaluate outside iterate()
-            elif any(c is None or c < 1 for c in counts):
-                ctx.count("genstep_runs_skipped_variator_returned_no_offspring")  # outside the theorem's premise
-            else:
-                pos, want = 0, []
-                for st in allsteps:
-                    pos += len(st["evolves"])
-                    want.append(f"{st['nfe']}:{pos}:{st['population_size']}")
-                ginp = dict(inp, style=style, population_size=alg.population_size, offspring_size=getattr(alg, "offspring_size", None),
-                            offspring_per_variator_call=counts[:40], observed_nfe_calls_population_per_step=want[:12])
-                ask(f"genrun {style} {alg.population_size} {getattr(alg, 'offspring_size', alg.population_size)} {len(allsteps)} {wlist(counts)}",
-                    lambda g, want=want, ginp=ginp: None if g == " ".join(want)
-                    else ctx.disagree("generational step model (genStep: counter, variator calls, population size after every step)", ginp, " ".join(want)[:300], g[:300]))
-                ctx.count("genstep_histories_replayed")
-                ctx.count("genstep_steps_replayed", len(allsteps))
+        runs.genstep_replay(ctx, ask, alg, segs, inp)
         prev_after = 0
         for j, sg in enumerate(segs):
             N, n0 = sg["N"], sg["nfe_before"]
